@@ -94,8 +94,21 @@ def rows_of(t):
     return None
 
 
+def mentions_var(t) -> bool:
+    if isinstance(t, list):
+        if t and t[0] in ("var", "rowvar"):
+            return True
+        return any(mentions_var(x) for x in t)
+    if isinstance(t, dict):
+        return any(mentions_var(v) for v in t.values())
+    return False
+
+
 def constable(t) -> bool:
-    """can gen_value produce a value of this type?"""
+    """can gen_value produce a value of this type?  (A constant's type must not mention type
+    variables: static edges cannot refer to the variables of an enclosing function.)"""
+    if mentions_var(t):
+        return False
     k = t[0]
     rows = rows_of(t)
     if rows is not None:
@@ -189,7 +202,11 @@ class VGen:
                 return ["list", t[1], vs]
             return ["sarray", t[1], vs, r.choice(["arr", "", "näme"])]
         if k == "func":
-            return ["func", {"ins": t[1], "perm": _func_perm(t[1], t[2])}]
+            f = {"ins": t[1], "perm": _func_perm(t[1], t[2])}
+            if r.random() < 0.5:
+                # node metadata inside the body of the function value
+                f["md"] = {"root": {"name": "body", "k": [1, None]}, "input": {"m": r.randint(0, 9)}}
+            return ["func", f]
         raise AssertionError(t)
 
     def const_type(self, depth=2, allow_func=True):
@@ -224,8 +241,16 @@ class VGen:
 
 
 class VBuilder:
-    def __init__(self, tb):
+    def __init__(self, tb, one_shot=False):
         self.tb = tb  # types.Builder
+        #: hand the `Iterable` parameters of the helper constructors one-shot iterators / generators
+        self.one_shot = one_shot
+
+    def it(self, xs):
+        xs = list(xs)
+        if not self.one_shot:
+            return xs
+        return (x for x in xs) if len(xs) % 2 else iter(xs)
 
     def func_hugr(self, f):
         from hugr.build import Dfg
@@ -233,6 +258,10 @@ class VBuilder:
         d = Dfg(*[self.tb.ty(t) for t in f["ins"]])
         ins = d.inputs()
         d.set_outputs(*[ins[i] for i in f["perm"]])
+        md = f.get("md")
+        if md:
+            d.hugr[d.hugr.root].metadata.update(md.get("root", {}))
+            d.hugr[d.input_node].metadata.update(md.get("input", {}))
         return d.hugr
 
     def val(self, v):
@@ -259,9 +288,9 @@ class VBuilder:
         if k == "none":
             return val.None_(*B.row(v[1]))
         if k == "left":
-            return val.Left([self.val(x) for x in v[1]], B.row(v[2]))
+            return val.Left(self.it(self.val(x) for x in v[1]), self.it(B.row(v[2])))
         if k == "right":
-            return val.Right(B.row(v[1]), [self.val(x) for x in v[2]])
+            return val.Right(self.it(B.row(v[1])), self.it(self.val(x) for x in v[2]))
         if k == "int":
             from hugr.std.int import IntVal
 
